@@ -25,7 +25,7 @@ def run(tier):
     r = Run('C07', tier)
     u, urec = U_hash(), U_hash_rec()
     T = 300 if tier == 'quick' else 1800
-    r.tv(u, 'tv_hash.c', extra_env=('env_heap.c', 'env_cxx.c', 'env_file.c'))
+    r.tv(u, 'tv_hash.c', extra_env=('env_heap.c', 'env_cxx.c', 'env_io.c', 'env_file.c'))
     r.b.translate(u)
     deltas = detect_delta(r, u, tier)
     r.notes.append('length-counter increment per compressed block read off the real code: %s' % deltas)
@@ -55,10 +55,21 @@ def run(tier):
         for nfull in (0, 1, 2):
             for tl in tails:
                 r.add(Ob('F-%s-fileloop-%dx64+%d' % (nm, nfull, tl), 'h_c07.c', [urec], defines=['H_FILELOOP', 'NFULL=%d' % nfull, 'TAILN=%d' % tl] + A + D, unwind=140, timeout=T, envs=HASH_ENVS, replay_units=[u]))
+    # F1: the real filebuffer64 (refill logic) for refill sizes 1..3 units
+    for hb in ((1, 2) if tier == 'quick' else (1, 2, 3)):
+        uh = U_hash(hb)
+        top = 64 * (2 * hb + 1) + 63
+        fls = [x for x in range(0, top + 1) if tier != 'quick' or x % 64 in (0, 1, 63) or x in (5, 100)]
+        for fl in fls:
+            for pre in (0, 1):
+                if tier == 'quick' and pre == 0 and fl % 64 == 63:
+                    continue
+                r.add(Ob('F1-filebuffer-refill%d-len%d-%s' % (hb, fl, 'prefix' if pre else 'plain'), 'h_c07.c', [uh], defines=['H_FILEBUF', 'FL=%d' % fl, 'PRE=%d' % pre],
+                         unwind=max(140, fl + 10), timeout=T, envs=HASH_ENVS, replay_envs=NATIVE_FILE_ENVS))
     r.bounds = ['K (compression): no bound - every round from an arbitrary state, schedule as local recurrence, final addition',
                 'P (padding): arbitrary state, block count n < 2^52, every tail length 0..63',
                 'S (getStringHash): every length 0..%d (SHA-1; other algorithms at the residues 0,1,54..57,63 in quick)' % (130 if tier == 'quick' else 260),
-                'F (getFileHash loop): 0..2 full units + tail; the filebuffer64 refill logic is decided by the C08 check obligations F1']
+                'F (getFileHash loop): 0..2 full units + tail; F1 (filebuffer64): refill sizes 1..3 units, file lengths up to two refills + 63 bytes, with and without prefix block']
     r.outside = ['monolithic digest equality is not attempted: digest(m) == standard follows from S/F (block stream = padded message) + K (each block compressed as the standard says) + R (output order) + I (initial value)',
                  'messages longer than 2^58 bytes']
     r.assumptions = ['operator new does not fail', 'recorder stub replaces the compression function in P/S/F (its only side effect, the counter increment, is read off the real code by K-finaladd)']
